@@ -93,7 +93,7 @@ def startIndex (len : Nat) (p : Int) : Option Nat :=
 
 /-- `substring(string, start position, length?)`: `length` (or all) characters starting at
 the position.  The text does not say what happens when fewer than `length` characters
-remain; the repository's own tests (`core.rs:1360`, `substring("homeless", 1, 9)` is null)
+remain; the repository's own tests (`core.rs:1362`, `substring("homeless", 1, 9)` is null)
 pin null, and so does this definition.  A length below 1 is outside the domain. -/
 def substringChars (cs : List Char) (p : Int) (n : Option Nat) : Option (List Char) :=
   match startIndex cs.length p, n with
